@@ -75,6 +75,15 @@ def gen_history(rng, tier):
         h['reset_given'] = False        # 'auto.offset.reset' left out of the parameters: the documented default is 'latest'
     if rng.random() < 0.3:
         h['same_params_dict'] = True    # the restart happens in the same process and re-uses the very same parameter dict
+    if rng.random() < 0.3:
+        # the caller spells out librdkafka's default in its parameters: the source must still take over the commits itself
+        h['user_autocommit'] = rng.choice(['true', True, 'True'])
+    if rng.random() < 0.3:
+        # transient failures of later committed() look-ups too (the one for partitions found by refresh_partitions)
+        h['committed_fail_at'] = sorted(rng.sample(range(1, 6), rng.choice([1, 2])))
+    if h['add_partition_at'] is not None and h['npartitions_arg'] and rng.random() < 0.6:
+        # exactly the look-up made for the partitions that refresh_partitions discovers right after a restart
+        h['committed_fail_at'] = [1 + h['committed_failures']]
     h['pre_holes'] = [[int(rng.random() < h['hole_rate']) for _ in range(n)] for n in h['pre']]
     return h
 
@@ -95,6 +104,8 @@ def run_incarnation(broker, h, crash_at=None, preload=False):
             params = {'bootstrap.servers': 'fake', 'group.id': 'g', 'auto.offset.reset': h['reset']}
             if h.get('reset_given') is False:
                 del params['auto.offset.reset']
+            if h.get('user_autocommit') is not None:
+                params['enable.auto.commit'] = h['user_autocommit']
             if h.get('same_params_dict'):
                 params = broker.__dict__.setdefault('_user_params', params)
             kw = {}
@@ -300,6 +311,8 @@ def check_history(h, crash_at, counters, sets):
         size_at_start = [len(x) for x in broker.logs]
         committed_at_start = {p: broker.committed.get(('g', p), kafka_fake.OFFSET_INVALID) for p in range(len(broker.logs))}
         broker.committed_failures = h.get('committed_failures', 0)     # per incarnation: also on the restart
+        broker.committed_fail_at = set(h.get('committed_fail_at', ()))
+        broker.n_committed = 0
         broker.fetch_failures = set(h.get('fetch_failures', ()))
         broker.n_assign = 0
         inc = run_incarnation(broker, h, crash, preload=(k == 1))
